@@ -199,6 +199,7 @@ class Unit(HookHost):
         self.logger.info(f"Started solving of {self}.")
         start = timer()
         self.init_solve(in_profile)
+        self._old_results = np.nan
 
         for i in range(1, self.max_iteration_count):
             self.in_profile.reevaluate_cache()
